@@ -727,38 +727,74 @@ class C20(PropertyCheck):
         "QipVerif.C20.unstored_measurement_covered",
         "QipVerif.C20.unstored_measurement_box",
     ]
-    technique = ("Lean 4 proof (invariants of the renderer's append-only row state, by induction over the circuit) "
-                 "+ model/implementation correspondence with exact string equality")
+    technique = ("Lean 4 proof (invariants of the renderer's append-only row state, by induction over the circuit; exact "
+                 "characterisation of the inputs that are drawn) + model/implementation correspondence with exact string "
+                 "equality, the variant of the tree read from its source")
     level_text = ("Lean 4 theorems about an executable model of TextRenderer (all of _add_wire_labels, _get_xskip, _manage_layers, "
                   "_adjust_layer_pad, _draw_*/_update_*, layout, print order; options gate_pad, wire_label, end_wire_ext, align_layer), "
-                  "for every number of wires, every circuit and every style: three rows per wire in the stated order with the wire's "
-                  "label at the start of its middle row; len top = len mid = len bot on every wire after every append; the boxed labels "
-                  "read off a qubit's middle row are, in circuit order, the labels of the elements boxed on it; and, for circuits meeting "
-                  "the decidable hypothesis circOk, the drawing succeeds, all rows have one width, and every control / SWAP / measurement "
-                  "link is one unbroken column from node to box mark. The clause 'all rows of equal width' is REFUTED for the code as it "
-                  "is (kernel-decided counter-examples, reproduced on the implementation; known finding). The model is parametric in "
-                  "Render.Variant (which of the proposed repairs fixes/C20-1..3 the tree contains, read from the source with ast): with "
-                  "C20-1 equal_width is proved at full strength for every valid circuit, with C20-2 every control of every valid gate has "
-                  "its node and link, with C20-3 gates on the whole register (GLOBALPHASE) are drawn instead of raising TypeError. "
-                  "The model is tied to the code by "
-                  "exact string equality of every printed row: exhaustive over every placed single element on <= 4 qubits, random and "
-                  "malformed circuits beyond.")
-    level_note = ("Partial on the shipped tree: equal_width holds only under circOk (boxes with controls have contiguous targets; "
-                  "one-target measurements; end_wire_ext >= 0; a label for every wire); full strength on a tree with fixes/C20-1. Classical controls are not drawn by the text renderer at all, so there is "
-                  "no link to state for them. Trusted: Lean kernel; Model/Render.lean as transcription (validated by the correspondence); "
-                  "the harness py/props/c20.py.")
+                  "parametric in Render.Variant = which of the repairs fixes/C20-1..4 the tree contains (read from the source with ast "
+                  "on every check). HEADLINE, repaired tree (C20-1..3 are applied in /repo, C20-4 is proposed): for EVERY valid "
+                  "circuit and EVERY style the drawing succeeds, has three rows per wire and all rows have one width "
+                  "(well_formed_repaired, equal_width at full strength). 'Valid' (circValid, decidable) is the property's quantifier "
+                  "and nothing more: >= 1 qubit, any number of classical wires (0 included), no bound on wires or elements (two-digit "
+                  "wire labels included), gate_pad > -1, end_wire_ext >= 0, any align_layer, default or one custom wire label per wire "
+                  "(any strings: empty, wide, non-ASCII); gates with >= 1 target and existing pairwise distinct qubits - any number "
+                  "of targets and controls, controls above / below / between the targets, targets with gaps, any name (SWAP too) "
+                  "and any label (arg_label, LaTeX source, empty); one-target measurements, stored into an existing bit or not "
+                  "stored; gates on the whole register (GLOBALPHASE). Classically controlled gates: the renderer never reads "
+                  "classical_controls (checked on the source and by the correspondence), they are drawn as the plain gate. "
+                  "For every variant, every circuit and every style whose drawing succeeds: three rows per wire in the stated order "
+                  "with the wire's label at the start of its middle row (three_rows_per_wire, row_order, row_labels); len top = len "
+                  "mid = len bot on every wire after every append; the boxed labels read off a qubit's middle row are, in circuit "
+                  "order, the labels of the elements boxed on it (labels_in_order; no validity hypothesis). Totality, exact, every "
+                  "variant: the drawing succeeds IFF the circuit is `drawable` (draws_iff: 1..N+C labels; every element of a kind "
+                  "the tree draws, with >= 1 target and all wire indices < N+C; no align_layer without qubits) - so the inputs the "
+                  "renderer rejects are exactly known. For circuits meeting the decidable hypothesis circOk (= every valid circuit "
+                  "on the repaired tree, valid_covered): every control / SWAP / measurement link is one unbroken column from node "
+                  "to box mark - controls above and below the box, and (C20-2) the node of a control between the targets inside the "
+                  "box at the link column; an unstored measurement is the box M with unbroken frames, no link. REFUTED for the older "
+                  "variants (kernel-decided counter-examples, reproduced on those trees, regression replays of the fixed findings): "
+                  "equal widths on the shipped tree (rows of width 22 and 32 / 44), TypeError on GLOBALPHASE, TypeError on a "
+                  "measurement without classical_store (still present in /repo: finding C20-4, fix proposed). The model is tied to "
+                  "the code by exact string equality of every printed row: exhaustive over every placed single element on <= 4 "
+                  "qubits (with and without classical controls), a matrix stream (kind x position of controls x contiguity x "
+                  "classical controls x neighbouring measurements x style) with enforced coverage cells, random circuits, wide "
+                  "registers (10-14 qubits, thorough: up to 24), malformed circuits; exceptions compared by class.")
+    level_note = ("Full strength for the repaired variant; on /repo as it is now (C20-1..3 applied, C20-4 not) the only valid "
+                  "circuits not drawn are those with a measurement without classical_store (TypeError; theorem "
+                  "unstored_measurement_not_drawn, proposed fix fixes/C20-4.patch, check green on both trees). "
+                  "Classical controls are not drawn by the text renderer at all (nor by the matplotlib renderer), so the clause "
+                  "on links says nothing about them: a reader of the picture cannot see that a gate is classically controlled "
+                  "(observation, not recorded as a finding). Outside the model: negative indices (Python wrap-around), "
+                  "gate_pad <= -1 (the renderer's own assert fails), non-str labels, non-list target containers (numpy arrays, "
+                  "ranges), non-int end_wire_ext. Not stated as theorems: the wire glyphs (dash vs double dash), centring of labels. "
+                  "Trusted: Lean kernel; Model/Render.lean as transcription (validated by the correspondence); the harness "
+                  "py/props/c20.py incl. the ast reader of the variant.")
     trusted_base = [
         "Lean 4.33 kernel; axioms propext, Classical.choice, Quot.sound",
         "lean/QipVerif/Model/Render.lean as a transcription of text_renderer.py / base_renderer.py "
-        "(Python str = list of code points, += on per-wire strings = list append), validated by this correspondence",
-        "py/props/c20.py (harness: stdout capture of draw('text'), exception classes {IndexError, ValueError})",
+        "(Python str = list of code points, += on per-wire strings = list append), validated by this correspondence "
+        "(exact equality of every printed row; the variant sent to the driver is read from the tree's source)",
+        "py/props/c20.py (harness: stdout capture of draw('text'), exception classes {IndexError, ValueError, TypeError}; "
+        "detect_variant: ast comparison of the five box-span tests, the inside-node test, the GLOBALPHASE test and the three "
+        "classical_store tests with the known old/new forms - anything else is reported as 'not recognised' and fails the check; "
+        "ast scans of the StyleConfig fields and of the gate / measurement attributes the renderer reads)",
+        "circValid / in_domain as the reading of the property's quantifier (valid circuits; malformed inputs are only compared, "
+        "model against code, not judged)",
     ]
     assumptions = ["gate_pad > -1 (so that ceil(gate_pad) >= 0) and indices are non-negative (Python's negative-index wrap-around is outside the model)",
-                   "labels contain no newline (rows are read back from the printed output line by line)"]
-    rule = ("case = (N <= 6 qubits, C <= 3 bits, style options, list of gates/measurements); exhaustive stream: every "
-            "placement of one gate of every shape (<= 3 targets, <= 3 controls), SWAP, measurement on <= 4 qubits under 4 styles; "
-            "random stream: 1-12 operations; malformed stream: out-of-range wires, short/long/empty wire_label, negative "
-            "end_wire_ext, glyphs inside labels; non-trivial = at least one operation spanning >= 2 wires or >= 2 operations")
+                   "labels contain no newline (rows are read back from the printed output line by line)",
+                   "targets / controls are lists or tuples of ints, labels are str, end_wire_ext is an int (other container or "
+                   "scalar types make the renderer raise TypeError/IndexError in Python operators; not modelled)"]
+    rule = ("case = (N qubits, C <= 3 bits, style options, list of gates / stored and unstored measurements / whole-register gates); "
+            "exhaustive stream: every placement of one gate of every shape (<= 3 targets, <= 3 controls; also classically "
+            "controlled), SWAP, measurement on <= 4 qubits under 4 styles; matrix stream on 7+2 wires: 6 target shapes (single, "
+            "contiguous, with gaps; sorted and unsorted) x every subset of control positions {above, inside, below} x classical "
+            "controls x 6 styles x neighbouring measurements; random stream: 1-12 operations on <= 6 qubits; wide stream: 10-14 "
+            "qubits; malformed stream: out-of-range wires, empty target lists, multi-target measurements, short/long/empty "
+            "wire_label, negative end_wire_ext, glyphs inside labels; every required (kind, control positions, target shape, "
+            "classical control) cell, every kind under each style option and every kind on >= 10 qubits must occur in the run "
+            "(else a coverage disagreement); non-trivial = at least one operation spanning >= 2 wires or >= 2 operations")
 
     # ---------------------------------------------------------------------------------
     def regenerate(self, ctx):
